@@ -166,6 +166,27 @@ Section Force.
       unfold lcall_function, bind, get_state. cbn [l_graph set_params_l set_store]. rewrite (Hc (l_graph ls)). reflexivity.
   Qed.
 
+  (* forcing one thunk converges *)
+  Lemma thunk_conv rho k loc v ls p : store_below k rho (l_store ls) -> (N.to_nat loc < k)%nat -> nth_error rho (N.to_nat loc) = Some v -> nob p ->
+    conv (fun F => force_thunk' F loc ls p).
+  Proof.
+    intros Hst Hlt Hn Hb.
+    eapply conv_shift; [intros F; cbn [force_thunk]; reflexivity|]. unfold bind at 1, get_state.
+    destruct Hst as [Hlen Hok].
+    destruct (nth_error (l_store ls) (N.to_nat loc)) as [th|] eqn:Eth.
+    2:{ exfalso. apply nth_error_None in Eth. assert (N.to_nat loc < length rho)%nat by (apply nth_error_Some; congruence). lia. }
+    apply conv_ctx. destruct (Hok _ _ Hlt Eth) as (v0 & Hv0 & Hs). assert (v0 = v) by congruence. subst v0.
+    destruct (th_state th) as [inner| |v'] eqn:Es; [| contradiction |].
+    + set (st1 := list_update (N.to_nat loc) (fun th0 => {| th_state := TForcing; th_dbg := th_dbg th0 |}) (l_store ls)).
+      assert (Hst1 : store_below (N.to_nat loc) rho st1).
+      { split; [unfold st1; rewrite list_update_length; exact Hlen|]. intros i th0 Hi Hni. unfold st1 in Hni.
+        rewrite nth_error_update_other in Hni by lia. apply (Hok i th0); [lia|exact Hni]. }
+      unfold bind at 1. unfold store_set_state at 1. unfold bind at 1, get_state, set_lstore, Lazy.upd, modify.
+      apply conv_bind; [apply (force_conv rho (N.to_nat loc) inner v Hs (set_store st1 ls) p Hst1 Hb)|].
+      intros v' ls2 p2 B0 _. eapply conv_const. reflexivity.
+    + eapply conv_const. reflexivity.
+  Qed.
+
   Lemma force_full_conv F0 rho lv v ls p : store_wf call rho (l_store ls) -> den rho lv v -> nob p ->
     exists B st' p', (forall lf, (B <= lf)%nat -> eval_lv' (lf + F0) lv ls p = Ok (v, set_store st' ls, p')) /\ nob p' /\ store_wf call rho st'.
   Proof.
